@@ -2250,7 +2250,12 @@ where
         let end = self.read.index();
         if should_replace && start < end {
             let slice = self.read.slice_unchecked(start, end);
-            *schema = crate::from_slice(slice)?;
+            // the value is parsed from a sub-slice: report errors at their position in the
+            // whole JSON, not relative to the sub-slice
+            *schema = crate::from_slice(slice).map_err(|err| {
+                let index = start + err.offset();
+                Error::syntax(err.error_code(), self.read.as_u8_slice(), index)
+            })?;
         }
         Ok(())
     }
